@@ -2,6 +2,7 @@
 #include "StringUtility.h"
 #include <cstddef>
 #include <algorithm>
+#include <iterator>
 
 #ifdef __cpp_lib_filesystem
 #include <filesystem>
@@ -222,17 +223,15 @@ namespace OP2Utility::XFile
 	}
 
 	namespace {
-		// Remove leading references to the current directory: "./a/b" -> "a/b", "./a" -> "a"
-		std::string RemoveLeadingCurrentDirectory(std::string pathStr)
+		// Skip leading references to the current directory: "./a/b" compares as "a/b", "./a" as "a".
+		// The last element is never skipped, so "./" and "./." still compare equal to "."
+		fs::path::iterator SkipLeadingCurrentDirectory(const fs::path& path)
 		{
-			while (pathStr.size() >= 2 && pathStr[0] == '.' && pathStr[1] == '/') {
-				pathStr.erase(0, 2);
-				// Also remove repeated separators following the dot: ".//a" -> "a"
-				while (!pathStr.empty() && pathStr[0] == '/') {
-					pathStr.erase(0, 1);
-				}
+			auto it = path.begin();
+			while (it != path.end() && std::next(it) != path.end() && it->string() == ".") {
+				++it;
 			}
-			return pathStr;
+			return it;
 		}
 	}
 
@@ -242,10 +241,10 @@ namespace OP2Utility::XFile
 		StringUtility::ConvertToUpperInPlace(pathStr2);
 
 		// A leading "./" does not change which file a relative path names, with or without directories
-		const fs::path path1(RemoveLeadingCurrentDirectory(pathStr1));
-		const fs::path path2(RemoveLeadingCurrentDirectory(pathStr2));
+		const fs::path path1(pathStr1);
+		const fs::path path2(pathStr2);
 
-		return path1 == path2;
+		return std::equal(SkipLeadingCurrentDirectory(path1), path1.end(), SkipLeadingCurrentDirectory(path2), path2.end());
 	}
 
 	std::string GetDirectory(const std::string& pathStr)
